@@ -48,68 +48,90 @@ example : counterExact real_ga_v0 = true ∧ insertsOutside real_ga_v0 = true :=
 example : (runC ⟨fun t => t < 30, fun _ => false, fun t => t % 5⟩ 300 real_ga_v0).map
     (fun s => decide (visible s.counters = some s.calls)) = some true := by decide
 
+/-! ### Per-template obligations on the regenerated trees -/
 theorem real_ga_v0_counter_exact : counterExact real_ga_v0 = true := by decide
 theorem real_ga_v1_counter_exact : counterExact real_ga_v1 = true := by decide
 theorem real_ga_v2_counter_exact : counterExact real_ga_v2 = true := by decide
+theorem real_ga_v3_counter_exact : counterExact real_ga_v3 = true := by decide
 theorem binary_ga_v0_counter_exact : counterExact binary_ga_v0 = true := by decide
 theorem binary_ga_v1_counter_exact : counterExact binary_ga_v1 = true := by decide
 theorem binary_ga_v2_counter_exact : counterExact binary_ga_v2 = true := by decide
+theorem binary_ga_v3_counter_exact : counterExact binary_ga_v3 = true := by decide
 theorem real_es_v0_counter_exact : counterExact real_es_v0 = true := by decide
 theorem real_es_v1_counter_exact : counterExact real_es_v1 = true := by decide
 theorem real_es_v2_counter_exact : counterExact real_es_v2 = true := by decide
+theorem real_es_v3_counter_exact : counterExact real_es_v3 = true := by decide
 theorem real_de_v0_counter_exact : counterExact real_de_v0 = true := by decide
 theorem real_de_v1_counter_exact : counterExact real_de_v1 = true := by decide
 theorem real_de_v2_counter_exact : counterExact real_de_v2 = true := by decide
+theorem real_de_v3_counter_exact : counterExact real_de_v3 = true := by decide
 theorem real_pso_v0_counter_exact : counterExact real_pso_v0 = true := by decide
 theorem real_pso_v1_counter_exact : counterExact real_pso_v1 = true := by decide
 theorem real_pso_v2_counter_exact : counterExact real_pso_v2 = true := by decide
+theorem real_pso_v3_counter_exact : counterExact real_pso_v3 = true := by decide
 theorem real_sa_v0_counter_exact : counterExact real_sa_v0 = true := by decide
 theorem real_sa_v1_counter_exact : counterExact real_sa_v1 = true := by decide
 theorem real_sa_v2_counter_exact : counterExact real_sa_v2 = true := by decide
+theorem real_sa_v3_counter_exact : counterExact real_sa_v3 = true := by decide
 theorem permutation_sa_v0_counter_exact : counterExact permutation_sa_v0 = true := by decide
 theorem permutation_sa_v1_counter_exact : counterExact permutation_sa_v1 = true := by decide
 theorem permutation_sa_v2_counter_exact : counterExact permutation_sa_v2 = true := by decide
+theorem permutation_sa_v3_counter_exact : counterExact permutation_sa_v3 = true := by decide
 theorem real_ls_v0_counter_exact : counterExact real_ls_v0 = true := by decide
 theorem real_ls_v1_counter_exact : counterExact real_ls_v1 = true := by decide
 theorem real_ls_v2_counter_exact : counterExact real_ls_v2 = true := by decide
+theorem real_ls_v3_counter_exact : counterExact real_ls_v3 = true := by decide
 theorem permutation_ls_v0_counter_exact : counterExact permutation_ls_v0 = true := by decide
 theorem permutation_ls_v1_counter_exact : counterExact permutation_ls_v1 = true := by decide
 theorem permutation_ls_v2_counter_exact : counterExact permutation_ls_v2 = true := by decide
+theorem permutation_ls_v3_counter_exact : counterExact permutation_ls_v3 = true := by decide
 theorem real_ils_v0_counter_exact : counterExact real_ils_v0 = false := by decide
 theorem real_ils_v1_counter_exact : counterExact real_ils_v1 = false := by decide
 theorem real_ils_v2_counter_exact : counterExact real_ils_v2 = false := by decide
+theorem real_ils_v3_counter_exact : counterExact real_ils_v3 = false := by decide
 theorem permutation_ils_v0_counter_exact : counterExact permutation_ils_v0 = false := by decide
 theorem permutation_ils_v1_counter_exact : counterExact permutation_ils_v1 = false := by decide
 theorem permutation_ils_v2_counter_exact : counterExact permutation_ils_v2 = false := by decide
+theorem permutation_ils_v3_counter_exact : counterExact permutation_ils_v3 = false := by decide
 theorem real_rs_v0_counter_exact : counterExact real_rs_v0 = true := by decide
 theorem real_rs_v1_counter_exact : counterExact real_rs_v1 = true := by decide
 theorem real_rs_v2_counter_exact : counterExact real_rs_v2 = true := by decide
+theorem real_rs_v3_counter_exact : counterExact real_rs_v3 = true := by decide
 theorem permutation_rs_v0_counter_exact : counterExact permutation_rs_v0 = true := by decide
 theorem permutation_rs_v1_counter_exact : counterExact permutation_rs_v1 = true := by decide
 theorem permutation_rs_v2_counter_exact : counterExact permutation_rs_v2 = true := by decide
+theorem permutation_rs_v3_counter_exact : counterExact permutation_rs_v3 = true := by decide
 theorem real_rw_v0_counter_exact : counterExact real_rw_v0 = true := by decide
 theorem real_rw_v1_counter_exact : counterExact real_rw_v1 = true := by decide
 theorem real_rw_v2_counter_exact : counterExact real_rw_v2 = true := by decide
+theorem real_rw_v3_counter_exact : counterExact real_rw_v3 = true := by decide
 theorem permutation_rw_v0_counter_exact : counterExact permutation_rw_v0 = true := by decide
 theorem permutation_rw_v1_counter_exact : counterExact permutation_rw_v1 = true := by decide
 theorem permutation_rw_v2_counter_exact : counterExact permutation_rw_v2 = true := by decide
+theorem permutation_rw_v3_counter_exact : counterExact permutation_rw_v3 = true := by decide
 theorem real_iwo_v0_counter_exact : counterExact real_iwo_v0 = true := by decide
 theorem real_iwo_v1_counter_exact : counterExact real_iwo_v1 = true := by decide
 theorem real_iwo_v2_counter_exact : counterExact real_iwo_v2 = true := by decide
+theorem real_iwo_v3_counter_exact : counterExact real_iwo_v3 = true := by decide
 theorem real_fa_v0_counter_exact : counterExact real_fa_v0 = true := by decide
 theorem real_fa_v1_counter_exact : counterExact real_fa_v1 = true := by decide
 theorem real_fa_v2_counter_exact : counterExact real_fa_v2 = true := by decide
+theorem real_fa_v3_counter_exact : counterExact real_fa_v3 = true := by decide
 theorem real_bh_v0_counter_exact : counterExact real_bh_v0 = true := by decide
 theorem real_bh_v1_counter_exact : counterExact real_bh_v1 = true := by decide
 theorem real_bh_v2_counter_exact : counterExact real_bh_v2 = true := by decide
+theorem real_bh_v3_counter_exact : counterExact real_bh_v3 = true := by decide
 theorem real_cro_v0_counter_exact : counterExact real_cro_v0 = true := by decide
 theorem real_cro_v1_counter_exact : counterExact real_cro_v1 = true := by decide
 theorem real_cro_v2_counter_exact : counterExact real_cro_v2 = true := by decide
+theorem real_cro_v3_counter_exact : counterExact real_cro_v3 = true := by decide
 theorem ant_system_v0_counter_exact : counterExact ant_system_v0 = true := by decide
 theorem ant_system_v1_counter_exact : counterExact ant_system_v1 = true := by decide
 theorem ant_system_v2_counter_exact : counterExact ant_system_v2 = true := by decide
+theorem ant_system_v3_counter_exact : counterExact ant_system_v3 = true := by decide
 theorem max_min_ant_system_v0_counter_exact : counterExact max_min_ant_system_v0 = true := by decide
 theorem max_min_ant_system_v1_counter_exact : counterExact max_min_ant_system_v1 = true := by decide
 theorem max_min_ant_system_v2_counter_exact : counterExact max_min_ant_system_v2 = true := by decide
+theorem max_min_ant_system_v3_counter_exact : counterExact max_min_ant_system_v3 = true := by decide
 
 end MahfModel.Props.C06.Templates
